@@ -2,12 +2,52 @@
    all handles (bucket.collectionFeeds), terminators, dump feeds, DropDataStore, Close, CloseAndDelete. *)
 From Rosmar Require Import Base.
 
+(* a feed's consumer may be slow: its callback can be made to block (LBlock arms the gate, the next
+   delivery then holds) until LRelease.  While it holds, further events queue up behind it; ending the
+   feed closes the queue, so what was queued is never delivered and the done channel is closed when the
+   callback returns. *)
+Inductive gate :=
+| GOpen
+| GArmed                                 (* the next callback invocation will block *)
+| GHold (pending : N) (endreq : bool).   (* a callback invocation is blocked; events queued behind it; the feed was ended meanwhile *)
+
 Record lfeed := mkLfeed {
   lf_coll : string;
   lf_dump : bool;
   lf_ended : bool;       (* the done channel is closed; the callback is never invoked again *)
-  lf_got : N             (* mutation / deletion events delivered so far *)
+  lf_got : N;            (* mutation / deletion events the callback has been invoked for so far *)
+  lf_gate : gate
 }.
+
+(* one event for a running feed *)
+Definition deliver1 (f : lfeed) : lfeed :=
+  match lf_gate f with
+  | GOpen => mkLfeed (lf_coll f) (lf_dump f) false (lf_got f + 1) GOpen
+  | GArmed => mkLfeed (lf_coll f) (lf_dump f) false (lf_got f + 1) (GHold 0 false)
+  | GHold p false => mkLfeed (lf_coll f) (lf_dump f) false (lf_got f) (GHold (p + 1) false)
+  | GHold p true => f                                     (* the queue is closed *)
+  end.
+
+(* a cause ends the feed *)
+Definition end1 (f : lfeed) : lfeed :=
+  match lf_gate f with
+  | GHold p _ => if lf_ended f then f else mkLfeed (lf_coll f) (lf_dump f) false (lf_got f) (GHold p true)
+  | _ => mkLfeed (lf_coll f) (lf_dump f) true (lf_got f) GOpen
+  end.
+
+Definition block1 (f : lfeed) : lfeed :=
+  match lf_gate f with
+  | GOpen => if lf_ended f || lf_dump f then f else mkLfeed (lf_coll f) (lf_dump f) false (lf_got f) GArmed
+  | _ => f
+  end.
+
+Definition release1 (f : lfeed) : lfeed :=
+  match lf_gate f with
+  | GOpen => f
+  | GArmed => mkLfeed (lf_coll f) (lf_dump f) (lf_ended f) (lf_got f) GOpen
+  | GHold p false => mkLfeed (lf_coll f) (lf_dump f) (lf_ended f) (lf_got f + p) GOpen
+  | GHold p true => mkLfeed (lf_coll f) (lf_dump f) true (lf_got f) GOpen
+  end.
 
 Record lstate := mkLstate {
   ls_inmem : bool;
@@ -25,7 +65,9 @@ Inductive lop :=
 | LTerm (f : nat)                            (* the feed's terminator is closed *)
 | LDrop (h : nat) (c : string)
 | LClose (h : nat)
-| LCloseAndDelete (h : nat).
+| LCloseAndDelete (h : nat)
+| LBlock (f : nat)                           (* the feed's next callback invocation blocks *)
+| LRelease (f : nat).                        (* ... until now *)
 
 Definition lstate0 (inmem : bool) : lstate := mkLstate inmem true [] [("_default._default", 0)] [].
 
@@ -35,7 +77,7 @@ Definition handle_open (s : lstate) (h : nat) : bool :=
 Definition coll_exists (s : lstate) (c : string) : bool := is_some (alookup String.eqb c (ls_colls s)).
 
 Definition end_feeds (p : lfeed -> bool) (fs : list (nat * lfeed)) : list (nat * lfeed) :=
-  map (fun f => if p (snd f) then (fst f, mkLfeed (lf_coll (snd f)) (lf_dump (snd f)) true (lf_got (snd f))) else f) fs.
+  map (fun f => if p (snd f) then (fst f, end1 (snd f)) else f) fs.
 
 Definition open_count (s : lstate) : nat := List.length (filter (fun hb : nat * bool => snd hb) (ls_handles s)).
 
@@ -51,18 +93,18 @@ Definition lstep (s : lstate) (o : lop) : lstate * bool (* the call succeeded *)
         let n := match alookup String.eqb c (ls_colls s) with Some n => n | None => 0 end in
         (* a dump feed delivers the backfill and ends by itself; a live feed (started without backfill) waits *)
         (mkLstate (ls_inmem s) (ls_alive s) (ls_handles s) (ls_colls s)
-                  (ls_feeds s ++ [(f, mkLfeed c dump dump (if dump then n else 0))]), true)
+                  (ls_feeds s ++ [(f, mkLfeed c dump dump (if dump then n else 0) GOpen)]), true)
       else (s, false)
   | LWrite h c =>
       if handle_open s h && coll_exists s c then
         (mkLstate (ls_inmem s) (ls_alive s) (ls_handles s)
                   (map (fun cn => if String.eqb (fst cn) c then (fst cn, snd cn + 1) else cn) (ls_colls s))
                   (map (fun f => if String.eqb (lf_coll (snd f)) c && negb (lf_ended (snd f))
-                                 then (fst f, mkLfeed c (lf_dump (snd f)) false (lf_got (snd f) + 1)) else f) (ls_feeds s)), true)
+                                 then (fst f, deliver1 (snd f)) else f) (ls_feeds s)), true)
       else (s, false)
   | LTerm f =>
       (mkLstate (ls_inmem s) (ls_alive s) (ls_handles s) (ls_colls s)
-                (map (fun g => if Nat.eqb (fst g) f then (fst g, mkLfeed (lf_coll (snd g)) (lf_dump (snd g)) true (lf_got (snd g))) else g) (ls_feeds s)), true)
+                (map (fun g => if Nat.eqb (fst g) f then (fst g, end1 (snd g)) else g) (ls_feeds s)), true)
   | LDrop h c =>
       if handle_open s h && coll_exists s c && negb (String.eqb c "_default._default") then
         (mkLstate (ls_inmem s) (ls_alive s) (ls_handles s) (aremove String.eqb c (ls_colls s))
@@ -83,6 +125,12 @@ Definition lstep (s : lstate) (o : lop) : lstate * bool (* the call succeeded *)
       | Some _ => (mkLstate (ls_inmem s) false (ls_handles s) (ls_colls s) (end_feeds (fun _ => true) (ls_feeds s)), true)
       | None => (s, false)
       end
+  | LBlock f =>
+      (mkLstate (ls_inmem s) (ls_alive s) (ls_handles s) (ls_colls s)
+                (map (fun g => if Nat.eqb (fst g) f then (fst g, block1 (snd g)) else g) (ls_feeds s)), true)
+  | LRelease f =>
+      (mkLstate (ls_inmem s) (ls_alive s) (ls_handles s) (ls_colls s)
+                (map (fun g => if Nat.eqb (fst g) f then (fst g, release1 (snd g)) else g) (ls_feeds s)), true)
   end.
 
 Record lobs := mkLobs { lo_ok : bool; lo_feeds : list (N * bool * N) (* feed, ended, events received *) }.
@@ -110,7 +158,19 @@ Definition life_corr_ok (t : (bool * list lop) * list lobs) : bool :=
 Definition feed_of (l : list (N * bool * N)) (f : N) : option (bool * N) :=
   match filter (fun x : N * bool * N => fst (fst x) =? f) l with x :: _ => Some (snd (fst x), snd x) | [] => None end.
 
-Definition chk_life_step (coll_of : N -> option (string * bool)) (store_down : bool) (prev : lobs) (o : lop) (ob : lobs) : bool :=
+(* is step o a cause that ends feed f? *)
+Definition is_cause (coll_of : N -> option (string * bool)) (store_down : bool) (o : lop) (ok : bool) (f : N) : bool :=
+  match o, coll_of f with
+  | LTerm g, _ => N.of_nat g =? f
+  | LDrop _ c, Some (c', _) => ok && String.eqb c c'
+  | LClose _, _ | LCloseAndDelete _, _ => store_down
+  | _, _ => false
+  end.
+
+(* gated: the feed's consumer is (or may be) blocked - between LBlock f and LRelease f; the flag says
+   whether a cause for it has occurred since *)
+Definition chk_life_step (coll_of : N -> option (string * bool)) (store_down : bool) (gated : list (N * bool))
+                         (prev : lobs) (o : lop) (ob : lobs) : bool :=
   forallb (fun x : N * bool * N =>
     let f := fst (fst x) in
     match feed_of (lo_feeds prev) f with
@@ -118,45 +178,45 @@ Definition chk_life_step (coll_of : N -> option (string * bool)) (store_down : b
     | Some (ended0, got0) =>
         let ended1 := snd (fst x) in
         let got1 := snd x in
+        let cause := is_cause coll_of store_down o (lo_ok ob) f in
+        let released := match o with LRelease g => N.of_nat g =? f | _ => false end in
         (* ended is for ever, and silent *)
         (if ended0 then ended1 && (got1 =? got0) else true)
-        (* a feed ends at this step only if the step is a cause for it *)
+        (* a feed ends at this step only if the step is a cause for it, or its blocked consumer returns after one *)
         && (if negb ended0 && ended1 then
-              match o, coll_of f with
-              | LTerm g, _ => N.of_nat g =? f
-              | LDrop _ c, Some (c', _) => String.eqb c c'
-              | LClose _, _ | LCloseAndDelete _, _ => store_down
-              | _, _ => false
-              end
+              cause || (released && match alookup N.eqb f gated with Some b => b | None => false end)
             else true)
-        (* and a cause does end it *)
-        && (if negb ended1 then
-              match o, coll_of f with
-              | LTerm g, _ => negb (N.of_nat g =? f)
-              | LDrop _ c, Some (c', _) => negb (lo_ok ob && String.eqb c c')
-              | LClose _, _ | LCloseAndDelete _, _ => negb store_down
-              | _, _ => true
-              end
-            else true)
+        (* and a cause does end it - at once, or when its blocked consumer returns, with nothing delivered in between *)
+        && (match alookup N.eqb f gated with
+            | None => if negb ended1 then negb cause else true
+            | Some true => if released then ended1 && (got1 =? got0) else (got1 =? got0)
+            | Some false => true
+            end)
     end) (lo_feeds ob).
 
 (* the walk: what the checker remembers (independently of the model's state): which handles are open,
-   which collection each feed is on *)
-Record shadow := mkShadow { sh_inmem : bool; sh_open : list nat; sh_feeds : list (N * (string * bool)) }.
-
-Definition shadow_after (sh : shadow) (o : lop) (ok : bool) : shadow :=
-  match o with
-  | LOpenHandle h => if ok then mkShadow (sh_inmem sh) (h :: sh_open sh) (sh_feeds sh) else sh
-  | LStart f _ c dump => if ok then mkShadow (sh_inmem sh) (sh_open sh) (sh_feeds sh ++ [(N.of_nat f, (c, dump))]) else sh
-  | LClose h => mkShadow (sh_inmem sh) (filter (fun x => negb (Nat.eqb x h)) (sh_open sh)) (sh_feeds sh)
-  | _ => sh
-  end.
+   which collection each feed is on, which feeds are gated *)
+Record shadow := mkShadow { sh_inmem : bool; sh_open : list nat; sh_feeds : list (N * (string * bool)); sh_gated : list (N * bool) }.
 
 Definition store_goes_down (sh : shadow) (o : lop) : bool :=
   match o with
   | LCloseAndDelete h => true
   | LClose h => negb (sh_inmem sh) && existsb (Nat.eqb h) (sh_open sh) && (List.length (nodup Nat.eq_dec (sh_open sh)) =? 1)%nat
   | _ => false
+  end.
+
+Definition shadow_after (sh : shadow) (o : lop) (ok : bool) : shadow :=
+  let coll_of := fun f => alookup N.eqb f (sh_feeds sh) in
+  let down := store_goes_down sh o in
+  let gated := map (fun g : N * bool => (fst g, snd g || is_cause coll_of down o ok (fst g))) (sh_gated sh) in
+  match o with
+  | LOpenHandle h => if ok then mkShadow (sh_inmem sh) (h :: sh_open sh) (sh_feeds sh) gated else sh
+  | LStart f _ c dump => if ok then mkShadow (sh_inmem sh) (sh_open sh) (sh_feeds sh ++ [(N.of_nat f, (c, dump))]) gated else sh
+  | LClose h => mkShadow (sh_inmem sh) (filter (fun x => negb (Nat.eqb x h)) (sh_open sh)) (sh_feeds sh) gated
+  | LBlock f => mkShadow (sh_inmem sh) (sh_open sh) (sh_feeds sh)
+                         (if is_some (alookup N.eqb (N.of_nat f) gated) then gated else gated ++ [(N.of_nat f, false)])
+  | LRelease f => mkShadow (sh_inmem sh) (sh_open sh) (sh_feeds sh) (aremove N.eqb (N.of_nat f) gated)
+  | _ => mkShadow (sh_inmem sh) (sh_open sh) (sh_feeds sh) gated
   end.
 
 Definition writes_delivered (sh : shadow) (prev : lobs) (o : lop) (ob : lobs) : bool :=
@@ -166,83 +226,190 @@ Definition writes_delivered (sh : shadow) (prev : lobs) (o : lop) (ob : lobs) : 
         forallb (fun x : N * bool * N =>
           match feed_of (lo_feeds prev) (fst (fst x)), alookup N.eqb (fst (fst x)) (sh_feeds sh) with
           | Some (ended0, got0), Some (c', dump) =>
-              if negb ended0 && negb dump && String.eqb c c' then snd x =? got0 + 1 else snd x =? got0
+              match alookup N.eqb (fst (fst x)) (sh_gated sh) with
+              | Some _ => (snd x =? got0) || (snd x =? got0 + 1)      (* queued behind a blocked consumer, or delivered *)
+              | None => if negb ended0 && negb dump && String.eqb c c' then snd x =? got0 + 1 else snd x =? got0
+              end
           | _, _ => true
           end) (lo_feeds ob)
       else true
-  | _ => true
+  | LRelease _ => true                                              (* what was queued is delivered now *)
+  | _ =>
+      (* no other step delivers anything *)
+      forallb (fun x : N * bool * N =>
+        match feed_of (lo_feeds prev) (fst (fst x)) with Some (_, got0) => snd x =? got0 | None => true end) (lo_feeds ob)
   end.
 
 Fixpoint lwalk (sh : shadow) (prev : lobs) (ops : list lop) (obs : list lobs) : bool :=
   match ops, obs with
   | [], [] => true
   | o :: os, ob :: obs' =>
-      chk_life_step (fun f => alookup N.eqb f (sh_feeds sh)) (store_goes_down sh o) prev o ob
+      chk_life_step (fun f => alookup N.eqb f (sh_feeds sh)) (store_goes_down sh o) (sh_gated sh) prev o ob
       && writes_delivered sh prev o ob
       && lwalk (shadow_after sh o (lo_ok ob)) ob os obs'
   | _, _ => false
   end.
 
 Definition chk_life (t : (bool * list lop) * list lobs) : bool :=
-  lwalk (mkShadow (fst (fst t)) [] []) (mkLobs true []) (snd (fst t)) (snd t).
+  lwalk (mkShadow (fst (fst t)) [] [] []) (mkLobs true []) (snd (fst t)) (snd t).
 
 Definition life_model_chk (t : (bool * list lop) * list lobs) : bool := chk_life (fst t, lrun (fst t)).
 
 (* ---- theorems about the model ---- *)
-(* ending is for ever: no step revives a feed, and an ended feed receives nothing more *)
-Lemma end_feeds_keeps p fs f x : alookup Nat.eqb f (end_feeds p fs) = Some x ->
-  exists x0, alookup Nat.eqb f fs = Some x0 /\ lf_got x = lf_got x0 /\ (lf_ended x0 = true -> lf_ended x = true) /\ lf_coll x = lf_coll x0.
+(* what a step does to one feed: one of five functions, or nothing *)
+Definition feed_step_fns : list (lfeed -> lfeed) := [deliver1; end1; block1; release1; fun f => f].
+
+Lemma alookup_map_feed (g : nat * lfeed -> nat * lfeed) f (fs : list (nat * lfeed)) x :
+  (forall y, fst (g y) = fst y) -> alookup Nat.eqb f fs = Some x ->
+  alookup Nat.eqb f (map g fs) = Some (snd (g (f, x))).
 Proof.
-  induction fs as [|[g y] r IH]; cbn; [discriminate|].
-  destruct (p y); cbn; destruct (Nat.eqb f g); intros H.
-  - inversion H; subst. eexists; repeat split; auto.
-  - apply IH; exact H.
-  - inversion H; subst. eexists; repeat split; auto.
+  intros Hk. induction fs as [|[k y] r IH]; cbn; [discriminate|].
+  pose proof (Hk (k, y)) as Hk1. cbn in Hk1. destruct (g (k, y)) as [k' y'] eqn:Eg. cbn in Hk1. subst k'.
+  destruct (Nat.eqb_spec f k) as [->|Hne]; intros H.
+  - inversion H; subst. rewrite Eg. reflexivity.
   - apply IH; exact H.
 Qed.
 
-Theorem ended_is_final s o f x : alookup Nat.eqb f (ls_feeds s) = Some x -> lf_ended x = true ->
-  NoDup (map fst (ls_feeds s)) ->
+Lemma alookup_snoc_feed f (fs : list (nat * lfeed)) x g y : alookup Nat.eqb f fs = Some x -> alookup Nat.eqb f (fs ++ [(g, y)]) = Some x.
+Proof. induction fs as [|[k z] r IH]; cbn; [discriminate|]. destruct (Nat.eqb f k); [auto | exact IH]. Qed.
+
+(* every step maps a feed that exists to deliver1 / end1 / block1 / release1 of itself, or leaves it alone;
+   deliver1 only applies to a feed whose done channel is still open *)
+Lemma lstep_feed s o f x : alookup Nat.eqb f (ls_feeds s) = Some x ->
+  exists x', alookup Nat.eqb f (ls_feeds (fst (lstep s o))) = Some x'
+    /\ (x' = x \/ (x' = deliver1 x /\ lf_ended x = false /\ (exists h c, o = LWrite h c /\ lf_coll x = c))
+         \/ (x' = end1 x /\ match o with
+                            | LTerm g => g = f
+                            | LDrop _ c => c = lf_coll x
+                            | LClose _ => (open_count s =? 1)%nat && negb (ls_inmem s) && ls_alive s = true
+                            | LCloseAndDelete _ => True
+                            | _ => False
+                            end)
+         \/ (x' = block1 x /\ o = LBlock f) \/ (x' = release1 x /\ o = LRelease f)).
+Proof.
+  intros Hf. destruct o; cbn [lstep].
+  - destruct (ls_alive s); cbn [fst ls_feeds]; eauto.
+  - destruct (handle_open s h && negb (coll_exists s c)); cbn [fst ls_feeds]; eauto.
+  - destruct (handle_open s h && coll_exists s c); cbn [fst ls_feeds]; [|eauto].
+    eexists. split; [apply alookup_snoc_feed; exact Hf | left; reflexivity].
+  - destruct (handle_open s h && coll_exists s c); cbn [fst ls_feeds]; [|eauto].
+    eexists. split; [apply alookup_map_feed; [intros [k y]; cbn; destruct (_ && _); reflexivity | exact Hf]|].
+    cbn [fst snd]. destruct (String.eqb_spec (lf_coll x) c) as [E|]; cbn [andb]; [|left; reflexivity].
+    destruct (lf_ended x) eqn:Ee; cbn [negb]; [left; reflexivity|]. right; left. cbn [snd]. split; [reflexivity|]. split; [reflexivity|]. eauto.
+  - cbn [fst ls_feeds]. eexists. split; [apply alookup_map_feed; [intros [k y]; cbn; destruct (Nat.eqb k f0); reflexivity | exact Hf]|].
+    cbn [fst snd]. destruct (Nat.eqb_spec f f0) as [->|]; [right; right; left; split; reflexivity | left; reflexivity].
+  - destruct (handle_open s h && coll_exists s c && negb (String.eqb c "_default._default")); cbn [fst ls_feeds]; [|eauto].
+    unfold end_feeds. eexists. split; [apply alookup_map_feed; [intros [k y]; cbn; destruct (String.eqb _ _); reflexivity | exact Hf]|].
+    cbn [fst snd]. destruct (String.eqb_spec (lf_coll x) c) as [E|]; [right; right; left; split; [reflexivity | symmetry; exact E] | left; reflexivity].
+  - destruct (alookup Nat.eqb h (ls_handles s)) as [[|]|]; cbn [fst ls_feeds]; eauto.
+    destruct ((open_count s =? 1)%nat && negb (ls_inmem s) && ls_alive s) eqn:El; cbn [fst ls_feeds]; [|eauto].
+    unfold end_feeds. eexists. split; [apply alookup_map_feed; [intros [k y]; reflexivity | exact Hf]|].
+    right; right; left. split; [reflexivity | exact eq_refl].
+  - destruct (alookup Nat.eqb h (ls_handles s)); cbn [fst ls_feeds]; [|eauto].
+    unfold end_feeds. eexists. split; [apply alookup_map_feed; [intros [k y]; reflexivity | exact Hf]|].
+    right; right; left. split; [reflexivity | exact I].
+  - cbn [fst ls_feeds]. eexists. split; [apply alookup_map_feed; [intros [k y]; cbn; destruct (Nat.eqb k f0); reflexivity | exact Hf]|].
+    cbn [fst snd]. destruct (Nat.eqb_spec f f0) as [->|]; [right; right; right; left; split; reflexivity | left; reflexivity].
+  - cbn [fst ls_feeds]. eexists. split; [apply alookup_map_feed; [intros [k y]; cbn; destruct (Nat.eqb k f0); reflexivity | exact Hf]|].
+    cbn [fst snd]. destruct (Nat.eqb_spec f f0) as [->|]; [right; right; right; right; split; reflexivity | left; reflexivity].
+Qed.
+
+(* a feed whose done channel is closed has no blocked consumer *)
+Definition feed_wf (x : lfeed) : Prop := lf_ended x = true -> lf_gate x = GOpen.
+
+Lemma feed_fns_wf x : feed_wf x -> feed_wf (deliver1 x) /\ feed_wf (end1 x) /\ feed_wf (block1 x) /\ feed_wf (release1 x).
+Proof.
+  unfold feed_wf, deliver1, end1, block1, release1. intros H. destruct x as [c d e g gt]. destruct gt as [| |p b]; [| |destruct b];
+    cbn in *; repeat split; intros; try discriminate; auto;
+    destruct e; cbn in *; try discriminate; auto; destruct d; cbn in *; try discriminate; auto.
+Qed.
+
+Definition lwf (s : lstate) : Prop := forall f x, alookup Nat.eqb f (ls_feeds s) = Some x -> feed_wf x.
+
+Lemma alookup_map_inv (g : nat * lfeed -> nat * lfeed) f (fs : list (nat * lfeed)) x' :
+  (forall y, fst (g y) = fst y) -> alookup Nat.eqb f (map g fs) = Some x' ->
+  exists x, alookup Nat.eqb f fs = Some x.
+Proof.
+  intros Hk. induction fs as [|[k y] r IH]; cbn; [discriminate|].
+  pose proof (Hk (k, y)) as Hk1. cbn in Hk1. destruct (g (k, y)) as [k' y'] eqn:Eg. cbn in Hk1. subst k'.
+  destruct (Nat.eqb f k); intros H; [eauto | apply IH; exact H].
+Qed.
+
+Lemma lstep_feed_inv s o f x' : alookup Nat.eqb f (ls_feeds (fst (lstep s o))) = Some x' ->
+  (exists x, alookup Nat.eqb f (ls_feeds s) = Some x) \/ (exists h c dump, o = LStart f h c dump /\ lf_ended x' = lf_dump x' /\ lf_gate x' = GOpen).
+Proof.
+  destruct o; cbn [lstep].
+  - destruct (ls_alive s); cbn [fst ls_feeds]; eauto.
+  - destruct (handle_open s h && negb (coll_exists s c)); cbn [fst ls_feeds]; eauto.
+  - destruct (handle_open s h && coll_exists s c); cbn [fst ls_feeds]; [|eauto].
+    intros H. destruct (alookup Nat.eqb f (ls_feeds s)) as [x|] eqn:E; [eauto|]. right.
+    assert (forall fs, alookup Nat.eqb f fs = None -> alookup Nat.eqb f (fs ++ [(f0, mkLfeed c dump dump (if dump then match alookup String.eqb c (ls_colls s) with Some n => n | None => 0 end else 0) GOpen)]) = Some x' ->
+              f = f0 /\ x' = mkLfeed c dump dump (if dump then match alookup String.eqb c (ls_colls s) with Some n => n | None => 0 end else 0) GOpen) as Hs.
+    { induction fs as [|[k z] r IH]; cbn.
+      - intros _. destruct (Nat.eqb_spec f f0); [intros Hx; inversion Hx; auto | discriminate].
+      - destruct (Nat.eqb f k); [discriminate | exact IH]. }
+    destruct (Hs _ E H) as [-> ->]. exists h, c, dump. cbn. auto.
+  - destruct (handle_open s h && coll_exists s c); cbn [fst ls_feeds]; [|eauto].
+    intros H. left. eapply alookup_map_inv; [|exact H]. intros [k y]; cbn; destruct (_ && _); reflexivity.
+  - cbn [fst ls_feeds]. intros H. left. eapply alookup_map_inv; [|exact H]. intros [k y]; cbn; destruct (Nat.eqb k f0); reflexivity.
+  - destruct (handle_open s h && coll_exists s c && negb (String.eqb c "_default._default")); cbn [fst ls_feeds]; [|eauto].
+    intros H. left. eapply alookup_map_inv; [|exact H]. intros [k y]; cbn; destruct (String.eqb _ _); reflexivity.
+  - destruct (alookup Nat.eqb h (ls_handles s)) as [[|]|]; cbn [fst ls_feeds]; eauto.
+    destruct ((open_count s =? 1)%nat && negb (ls_inmem s) && ls_alive s); cbn [fst ls_feeds]; [|eauto].
+    intros H. left. eapply alookup_map_inv; [|exact H]. intros [k y]; reflexivity.
+  - destruct (alookup Nat.eqb h (ls_handles s)); cbn [fst ls_feeds]; [|eauto].
+    intros H. left. eapply alookup_map_inv; [|exact H]. intros [k y]; reflexivity.
+  - cbn [fst ls_feeds]. intros H. left. eapply alookup_map_inv; [|exact H]. intros [k y]; cbn; destruct (Nat.eqb k f0); reflexivity.
+  - cbn [fst ls_feeds]. intros H. left. eapply alookup_map_inv; [|exact H]. intros [k y]; cbn; destruct (Nat.eqb k f0); reflexivity.
+Qed.
+
+Theorem lstep_wf s o : lwf s -> lwf (fst (lstep s o)).
+Proof.
+  intros Hs f x' H. destruct (lstep_feed_inv s o f x' H) as [(x & Hx)|(h & c & d & _ & _ & Hg)]; [|intros _; exact Hg].
+  destruct (lstep_feed s o f x Hx) as (x2 & H2 & Hc). rewrite H in H2. inversion H2; subst x2.
+  destruct (feed_fns_wf x (Hs f x Hx)) as (A & B & C & D).
+  destruct Hc as [->|[(-> & _)|[(-> & _)|[(-> & _)|(-> & _)]]]]; auto. apply (Hs f x Hx).
+Qed.
+
+Theorem reachable_wf inmem ops : lwf (fold_left (fun s o => fst (lstep s o)) ops (lstate0 inmem)).
+Proof.
+  assert (forall ops s, lwf s -> lwf (fold_left (fun s o => fst (lstep s o)) ops s)) as H.
+  { induction ops0 as [|o r IH]; intros s Hs; cbn [fold_left]; [exact Hs | apply IH, lstep_wf, Hs]. }
+  apply H. intros f x Hx. discriminate Hx.
+Qed.
+
+(* ending is for ever: no step revives a feed, and an ended feed receives nothing more *)
+Theorem ended_is_final s o f x : alookup Nat.eqb f (ls_feeds s) = Some x -> lf_ended x = true -> feed_wf x ->
   match alookup Nat.eqb f (ls_feeds (fst (lstep s o))) with
   | Some x' => lf_ended x' = true /\ lf_got x' = lf_got x
   | None => False
   end.
 Proof.
-  intros Hf He Hnd.
-  assert (forall (g : nat * lfeed -> nat * lfeed) fs,
-            (forall y, fst (g y) = fst y) ->
-            (forall y, lf_ended (snd y) = true -> lf_ended (snd (g y)) = true /\ lf_got (snd (g y)) = lf_got (snd y)) ->
-            alookup Nat.eqb f fs = Some x ->
-            match alookup Nat.eqb f (map g fs) with Some x' => lf_ended x' = true /\ lf_got x' = lf_got x | None => False end) as Hmap.
-  { intros g fs Hk Hg. induction fs as [|[k y] r IH]; cbn; [discriminate|].
-    specialize (Hk (k, y)). cbn in Hk. destruct (g (k, y)) as [k' y'] eqn:Eg. cbn in Hk. subst k'.
-    destruct (Nat.eqb f k); intros H.
-    - inversion H; subst. specialize (Hg (k, x) He). rewrite Eg in Hg. exact Hg.
-    - apply IH; exact H. }
-  destruct o; cbn [lstep].
-  - destruct (ls_alive s); cbn [fst ls_feeds]; rewrite Hf; auto.
-  - destruct (handle_open s h && negb (coll_exists s c)); cbn [fst ls_feeds]; rewrite Hf; auto.
-  - destruct (handle_open s h && coll_exists s c); cbn [fst ls_feeds]; [|rewrite Hf; auto].
-    assert (alookup Nat.eqb f (ls_feeds s ++ [(f0, mkLfeed c dump dump (if dump then match alookup String.eqb c (ls_colls s) with Some n => n | None => 0 end else 0))]) = Some x) as ->; [|auto].
-    clear -Hf. induction (ls_feeds s) as [|[k y] r IH]; cbn in *; [discriminate|]. destruct (Nat.eqb f k); [exact Hf | apply IH; exact Hf].
-  - destruct (handle_open s h && coll_exists s c); cbn [fst ls_feeds]; [|rewrite Hf; auto].
-    apply Hmap; [intros [k y]; cbn; destruct (_ && _); reflexivity | | exact Hf].
-    intros [k y] Hy; cbn in *. rewrite Hy. rewrite andb_false_r. auto.
-  - cbn [fst ls_feeds]. apply Hmap; [intros [k y]; cbn; destruct (Nat.eqb k f0); reflexivity | | exact Hf].
-    intros [k y] Hy; cbn in *. destruct (Nat.eqb k f0); cbn; auto.
-  - destruct (handle_open s h && coll_exists s c && negb (String.eqb c "_default._default")); cbn [fst ls_feeds]; [|rewrite Hf; auto].
-    unfold end_feeds. apply Hmap; [intros [k y]; cbn; destruct (String.eqb _ _); reflexivity | | exact Hf].
-    intros [k y] Hy; cbn in *. destruct (String.eqb (lf_coll y) c); cbn; auto.
-  - destruct (alookup Nat.eqb h (ls_handles s)) as [[|]|]; cbn [fst ls_feeds]; try (rewrite Hf; auto).
-    destruct ((open_count s =? 1)%nat && negb (ls_inmem s) && ls_alive s); cbn [fst ls_feeds]; [|rewrite Hf; auto].
-    unfold end_feeds. apply Hmap; [intros [k y]; reflexivity | | exact Hf]. intros [k y] Hy; cbn; auto.
-  - destruct (alookup Nat.eqb h (ls_handles s)); cbn [fst ls_feeds]; [|rewrite Hf; auto].
-    unfold end_feeds. apply Hmap; [intros [k y]; reflexivity | | exact Hf]. intros [k y] Hy; cbn; auto.
+  intros Hf He Hwf. destruct (lstep_feed s o f x Hf) as (x' & -> & Hc). specialize (Hwf He).
+  destruct Hc as [->|[(_ & Hne & _)|[(-> & _)|[(-> & _)|(-> & _)]]]]; [auto | congruence | | |];
+    unfold end1, block1, release1; rewrite Hwf; cbn; rewrite ?He; cbn; auto.
+Qed.
+
+(* the events queued behind a blocked consumer when the feed is ended are never delivered: from then on the
+   count stands still, and the done channel is closed when the consumer returns *)
+Theorem queued_never_delivered s o f x p : alookup Nat.eqb f (ls_feeds s) = Some x -> lf_ended x = false -> lf_gate x = GHold p true ->
+  match alookup Nat.eqb f (ls_feeds (fst (lstep s o))) with
+  | Some x' => lf_got x' = lf_got x
+               /\ ((lf_ended x' = false /\ lf_gate x' = GHold p true) \/ (lf_ended x' = true /\ lf_gate x' = GOpen /\ o = LRelease f))
+  | None => False
+  end.
+Proof.
+  intros Hf He Hg. destruct (lstep_feed s o f x Hf) as (x' & -> & Hc).
+  destruct Hc as [->|[(-> & _)|[(-> & _)|[(-> & _)|(-> & Ho)]]]];
+    unfold deliver1, end1, block1, release1; rewrite ?Hg, ?He; cbn; rewrite ?Hg, ?He; auto 6.
 Qed.
 
 (* independence: closing one feed's terminator, dropping another collection, or closing a handle that is
-   not the last one of an on-disk bucket ends no other feed *)
-Theorem others_keep_running s o g y : alookup Nat.eqb g (ls_feeds s) = Some y -> lf_ended y = false ->
+   not the last one of an on-disk bucket ends no other feed, nor marks it for ending *)
+Definition running (y : lfeed) : Prop :=
+  lf_ended y = false /\ match lf_gate y with GHold _ true => False | _ => True end.
+
+Theorem others_keep_running s o g y : alookup Nat.eqb g (ls_feeds s) = Some y -> running y ->
   match o with
   | LTerm f => f <> g
   | LDrop _ c => c <> lf_coll y
@@ -251,36 +418,16 @@ Theorem others_keep_running s o g y : alookup Nat.eqb g (ls_feeds s) = Some y ->
   | _ => True
   end ->
   match alookup Nat.eqb g (ls_feeds (fst (lstep s o))) with
-  | Some y' => lf_ended y' = false
+  | Some y' => running y'
   | None => False
   end.
 Proof.
-  intros Hg He Hside.
-  assert (forall (t : nat * lfeed -> nat * lfeed) fs,
-            (forall z, fst (t z) = fst z) ->
-            (forall z, fst z = g -> snd z = y -> lf_ended (snd (t z)) = false) ->
-            alookup Nat.eqb g fs = Some y ->
-            match alookup Nat.eqb g (map t fs) with Some y' => lf_ended y' = false | None => False end) as Hmap.
-  { intros t fs Hk Ht. induction fs as [|[k z] r IH]; cbn; [discriminate|].
-    pose proof (Hk (k, z)) as Hk1. cbn in Hk1. destruct (t (k, z)) as [k' z'] eqn:Et. cbn in Hk1. subst k'.
-    destruct (Nat.eqb_spec g k) as [->|Hne]; intros H.
-    - inversion H; subst. specialize (Ht (k, y) eq_refl eq_refl). rewrite Et in Ht. exact Ht.
-    - apply IH; exact H. }
-  destruct o; cbn [lstep].
-  - destruct (ls_alive s); cbn [fst ls_feeds]; rewrite Hg; exact He.
-  - destruct (handle_open s h && negb (coll_exists s c)); cbn [fst ls_feeds]; rewrite Hg; exact He.
-  - destruct (handle_open s h && coll_exists s c); cbn [fst ls_feeds]; [|rewrite Hg; exact He].
-    assert (alookup Nat.eqb g (ls_feeds s ++ [(f, mkLfeed c dump dump (if dump then match alookup String.eqb c (ls_colls s) with Some n => n | None => 0 end else 0))]) = Some y) as ->; [|exact He].
-    clear -Hg. induction (ls_feeds s) as [|[k z] r IH]; cbn in *; [discriminate|]. destruct (Nat.eqb g k); [exact Hg | apply IH; exact Hg].
-  - destruct (handle_open s h && coll_exists s c); cbn [fst ls_feeds]; [|rewrite Hg; exact He].
-    apply Hmap; [intros [k z]; cbn; destruct (_ && _); reflexivity | | exact Hg].
-    intros [k z] _ Hz; cbn in *. subst z. destruct (String.eqb (lf_coll y) c && negb (lf_ended y)); cbn; [reflexivity | exact He].
-  - cbn [fst ls_feeds]. apply Hmap; [intros [k z]; cbn; destruct (Nat.eqb k f); reflexivity | | exact Hg].
-    intros [k z] Hk Hz; cbn in *. subst. destruct (Nat.eqb_spec g f); [congruence | exact He].
-  - destruct (handle_open s h && coll_exists s c && negb (String.eqb c "_default._default")); cbn [fst ls_feeds]; [|rewrite Hg; exact He].
-    unfold end_feeds. apply Hmap; [intros [k z]; cbn; destruct (String.eqb _ _); reflexivity | | exact Hg].
-    intros [k z] _ Hz; cbn in *. subst z. destruct (String.eqb_spec (lf_coll y) c); [congruence | exact He].
-  - destruct (alookup Nat.eqb h (ls_handles s)) as [[|]|]; cbn [fst ls_feeds]; try (rewrite Hg; exact He).
-    rewrite Hside. cbn [fst ls_feeds]. rewrite Hg. exact He.
-  - destruct Hside.
+  intros Hg [He Hgate] Hside. destruct (lstep_feed s o g y Hg) as (y' & -> & Hc).
+  destruct Hc as [->|[(-> & _)|[(-> & Hcause)|[(-> & _)|(-> & _)]]]].
+  - split; assumption.
+  - unfold running, deliver1. destruct (lf_gate y) as [| |p [|]] eqn:Eg; cbn; rewrite ?Eg; auto; contradiction.
+  - exfalso. destruct o; try contradiction; congruence.
+  - unfold running, block1. destruct (lf_gate y) as [| |p [|]] eqn:Eg; cbn; rewrite ?He, ?Eg; cbn; rewrite ?He, ?Eg; auto; try contradiction.
+    destruct (lf_dump y); cbn; rewrite ?He, ?Eg; auto.
+  - unfold running, release1. destruct (lf_gate y) as [| |p [|]] eqn:Eg; cbn; rewrite ?He, ?Eg; cbn; auto; contradiction.
 Qed.
